@@ -26,6 +26,7 @@ def all_harnesses():
             hs.append(Harness(f"c14_audata_n{nd}_s{si}", f"crate::c08::au_decode_data({nd}, 3, 2, &[{', '.join(f'({a}, {b})' for a, b in sch)}], {nd + 4})", unwind=14,
                               unit="AuDecode::work (data state, segmented)", shape={"data_bytes": nd, "cap_in": 3, "cap_out": 2, "schedule": sch},
                               core=(nd == 5 and si == 0), timeout=1200))
+            hs[-1].priority = True
     import itertools
     TSTUB = [("<std::net::TcpStream as std::io::Read>::read", "crate::c14::tcp_read_stub")]
     for cap in (1, 2):
@@ -45,4 +46,4 @@ def all_harnesses():
 
 
 def harnesses(tier, seed):
-    return select(all_harnesses(), tier, seed, 0, max_one=260)
+    return select(all_harnesses(), tier, seed, 0)
